@@ -21,27 +21,71 @@ namespace PymocaVerif.Flatten
 abbrev Name := String
 abbrev Path := List Name
 
+/-- Subscript expressions, innermost level: literals, one-part names (a loop variable, or a
+    component of the class), sums.  (Two levels of subscripts — `v[i + off[k]]` — are modelled;
+    the types are kept non-recursive through lists so that equality stays decidable by `deriving`.) -/
+inductive Sub0 where
+  | lit (n : Nat)
+  | name (x : Name)
+  | add (a b : Sub0)
+  deriving Repr, DecidableEq, Inhabited
+
+/-- Subscript expressions: additionally references that carry (innermost-level) subscripts. -/
+inductive Sub1 where
+  | lit (n : Nat)
+  | name (x : Name)
+  | ref (parts : List (Name × List Sub0))
+  | add (a b : Sub1)
+  deriving Repr, DecidableEq, Inhabited
+
 /-- Expressions as written in the source. A reference is a dotted list of (name, subscripts). -/
 inductive Expr where
   | num (n : Nat)
   | bool (b : Bool)
   | str (s : String)
-  | ref (parts : List (Name × List Nat))
+  | ref (parts : List (Name × List Sub1))
   | un (op : String) (a : Expr)
   | bin (op : String) (a b : Expr)
   deriving Repr, DecidableEq, Inhabited
 
-/-- Expressions of the flat model: a reference is either renamed to a flat variable (`fref`),
-    or left as written (`uref`); `sym` is the variable on the left of a binding equation. -/
+inductive FSub0 where
+  | lit (n : Nat)
+  | var (p : Path)          -- a name renamed to a flat variable
+  | name (x : Name)         -- left as written (loop variable, unknown name)
+  | add (a b : FSub0)
+  deriving Repr, DecidableEq, Inhabited
+
+inductive FSub1 where
+  | lit (n : Nat)
+  | var (p : Path) (subs : List FSub0)
+  | name (x : Name)
+  | uref (parts : List (Name × List Sub0))
+  | add (a b : FSub1)
+  deriving Repr, DecidableEq, Inhabited
+
+/-- Expressions of the flat model: a reference is either renamed to a flat variable (`fref`,
+    with the subscripts of all its parts collected and renamed), or left as written (`uref`);
+    `sym` is the variable on the left of a binding equation. -/
 inductive FExpr where
   | num (n : Nat)
   | bool (b : Bool)
   | str (s : String)
-  | fref (path : Path) (subs : List Nat)
-  | uref (parts : List (Name × List Nat))
+  | fref (path : Path) (subs : List FSub1)
+  | uref (parts : List (Name × List Sub1))
   | sym (path : Path)
   | un (op : String) (a : FExpr)
   | bin (op : String) (a b : FExpr)
+  deriving Repr, DecidableEq, Inhabited
+
+/-- An equation as written: simple, or a for-loop over `lo:hi` of simple equations. -/
+inductive Eqn where
+  | eq (lhs rhs : Expr)
+  | forEq (i : Name) (lo hi : Nat) (body : List (Expr × Expr))
+  deriving Repr, DecidableEq, Inhabited
+
+inductive FEqn where
+  | eq (lhs rhs : FExpr)
+  | forEq (i : Name) (lo hi : Nat) (body : List (FExpr × FExpr))
   deriving Repr, DecidableEq, Inhabited
 
 inductive Err where
@@ -88,7 +132,8 @@ structure ClassDef where
   isShort : Bool                      -- `type T = X(mods)`: exactly one extends clause, nothing else
   exts : List (Ty × List Mod)
   comps : List Comp
-  eqs : List (Expr × Expr)
+  eqs : List Eqn
+  ieqs : List Eqn                     -- the `initial equation` sections
   deriving Repr, Inhabited
 
 abbrev Lib := List (Path × ClassDef)
@@ -190,13 +235,13 @@ def membersF : Nat → Lib → Path → Except Err (List Member)
       | .error e => .error e
       | .ok inh => .ok (inh.flatten ++ d.comps.map fun k => { comp := k, ext := [] })
 
-def inheritEqStep (rec : Path → Except Err (List (Expr × Expr))) (tm : Ty × List Mod) :
-    Except Err (List (Expr × Expr)) :=
+def inheritEqStep (rec : Path → Except Err (List Eqn)) (tm : Ty × List Mod) :
+    Except Err (List Eqn) :=
   match tm.1 with
   | .builtin _ => .error .badExtends
   | .cls b => rec b
 
-def memberEqsF : Nat → Lib → Path → Except Err (List (Expr × Expr))
+def memberEqsF : Nat → Lib → Path → Except Err (List Eqn)
   | 0, _, _ => .error .fuel
   | f + 1, lib, p =>
     match lib.find p with
@@ -222,8 +267,7 @@ structure Var where
 /-- An equation of the class instantiated at `scope`, as written. -/
 structure IEq where
   scope : Path
-  lhs : Expr
-  rhs : Expr
+  eq : Eqn
   deriving Repr, DecidableEq, Inhabited
 
 def Mod.here (P : Path) (m : Mod) : MMod := { path := m.path, scope := P, value := m.value }
@@ -310,21 +354,41 @@ def instF : Nat → Lib → Path → Path → List MMod → List Nat → Except 
             | .error e => .error e
             | .ok rs =>
               .ok ((rs.map (·.1)).flatten,
-                   (rs.map (·.2)).flatten ++ eqs.map fun e => { scope := P, lhs := e.1, rhs := e.2 })
+                   (rs.map (·.2)).flatten ++ eqs.map fun e => { scope := P, eq := e })
 
 /-! ## renaming and the flat model -/
 
-def refNames (parts : List (Name × List Nat)) : Path := parts.map (·.1)
-def refSubs (parts : List (Name × List Nat)) : List Nat := (parts.map (·.2)).flatten
+def refNames {σ : Type} (parts : List (Name × List σ)) : Path := parts.map (·.1)
 
-/-- A reference written in instance `P` denotes the variable `P ++ names` when that is a
-    variable of the flat model; otherwise it is left as written. -/
+/-- A name or reference written in instance `P` denotes the variable `P ++ names` when that is a
+    variable of the flat model; otherwise it is left as written.  The same rule at every level
+    of subscripts. -/
+def renSub0 (vars : List Path) (P : Path) : Sub0 → FSub0
+  | .lit n => .lit n
+  | .name x => if vars.contains (P ++ [x]) then .var (P ++ [x]) else .name x
+  | .add a b => .add (renSub0 vars P a) (renSub0 vars P b)
+
+def refSubs0 (vars : List Path) (P : Path) (parts : List (Name × List Sub0)) : List FSub0 :=
+  (parts.map fun p => p.2.map (renSub0 vars P)).flatten
+
+def renSub1 (vars : List Path) (P : Path) : Sub1 → FSub1
+  | .lit n => .lit n
+  | .name x => if vars.contains (P ++ [x]) then .var (P ++ [x]) [] else .name x
+  | .ref parts =>
+    if vars.contains (P ++ refNames parts) then .var (P ++ refNames parts) (refSubs0 vars P parts)
+    else .uref parts
+  | .add a b => .add (renSub1 vars P a) (renSub1 vars P b)
+
+/-- the subscripts of all parts of a reference, in order, renamed -/
+def refSubs (vars : List Path) (P : Path) (parts : List (Name × List Sub1)) : List FSub1 :=
+  (parts.map fun p => p.2.map (renSub1 vars P)).flatten
+
 def rename (vars : List Path) (P : Path) : Expr → FExpr
   | .num n => .num n
   | .bool b => .bool b
   | .str s => .str s
   | .ref parts =>
-    if vars.contains (P ++ refNames parts) then .fref (P ++ refNames parts) (refSubs parts)
+    if vars.contains (P ++ refNames parts) then .fref (P ++ refNames parts) (refSubs vars P parts)
     else .uref parts
   | .un op a => .un op (rename vars P a)
   | .bin op a b => .bin op (rename vars P a) (rename vars P b)
@@ -344,8 +408,15 @@ structure FVar where
 
 structure FlatModel where
   vars : List FVar
-  eqs : List (FExpr × FExpr)       -- instance equations, unconnected-flow equations, binding equations
+  eqs : List FEqn        -- instance equations, unconnected-flow equations, binding equations
+  ieqs : List FEqn       -- initial equations of every instance
   deriving Repr, DecidableEq, Inhabited
+
+/-- loop variables are not components (assumed of the input, as pymoca does): the body is renamed
+    like any other equation -/
+def renameEqn (vars : List Path) (P : Path) : Eqn → FEqn
+  | .eq l r => .eq (rename vars P l) (rename vars P r)
+  | .forEq i lo hi body => .forEq i lo hi (body.map fun e => (rename vars P e.1, rename vars P e.2))
 
 def Var.isParam (v : Var) : Bool := v.prefixes.contains "parameter" || v.prefixes.contains "constant"
 
@@ -357,15 +428,19 @@ def finVar (names : List Path) (v : Var) : FVar :=
     attrs := attrNames.filterMap fun a => (v.attr names [a]).map fun e => (a, e),
     value := if v.isParam then v.attr names [] else none }
 
-def instEqs (names : List Path) (ieqs : List IEq) : List (FExpr × FExpr) :=
-  ieqs.map fun e => (rename names e.scope e.lhs, rename names e.scope e.rhs)
+def instEqs (names : List Path) (ieqs : List IEq) : List FEqn :=
+  ieqs.map fun e => renameEqn names e.scope e.eq
 
-def flowEqs (vars : List Var) : List (FExpr × FExpr) :=
-  (vars.filter fun v => v.prefixes.contains "flow").map fun v => (.sym v.path, .num 0)
+def flowEqs (vars : List Var) : List FEqn :=
+  (vars.filter fun v => v.prefixes.contains "flow").map fun v => .eq (.sym v.path) (.num 0)
 
-def bindEqs (names : List Path) (vars : List Var) : List (FExpr × FExpr) :=
+def bindEqs (names : List Path) (vars : List Var) : List FEqn :=
   vars.filterMap fun v =>
-    if v.isParam then none else (v.attr names []).map fun e => (.sym v.path, e)
+    if v.isParam then none else (v.attr names []).map fun e => .eq (.sym v.path) e
+
+/-- the same library with every class's `initial equation` sections in the place of its equations:
+    instantiating it yields the initial equations of every instance -/
+def initView (lib : Lib) : Lib := lib.map fun pd => (pd.1, { pd.2 with eqs := pd.2.ieqs })
 
 /-- the instance tree of `target` (its leaves and equations, not yet renamed) -/
 def instTop (fuel : Nat) (lib : Lib) (target : Path) : Except Err (List Var × List IEq) :=
@@ -374,14 +449,18 @@ def instTop (fuel : Nat) (lib : Lib) (target : Path) : Except Err (List Var × L
   | .ok (some _) => .error .targetElementary
   | .ok none => instF fuel lib target [] [] []
 
-def assemble (r : List Var × List IEq) : FlatModel :=
+def assemble (r : List Var × List IEq) (init : List IEq) : FlatModel :=
   let names := r.1.map (·.path)
   { vars := r.1.map (finVar names),
-    eqs := instEqs names r.2 ++ flowEqs r.1 ++ bindEqs names r.1 }
+    eqs := instEqs names r.2 ++ flowEqs r.1 ++ bindEqs names r.1,
+    ieqs := instEqs names init }
 
 def flattenF (fuel : Nat) (lib : Lib) (target : Path) : Except Err FlatModel :=
   match instTop fuel lib target with
   | .error e => .error e
-  | .ok r => .ok (assemble r)
+  | .ok r =>
+    match instTop fuel (initView lib) target with
+    | .error e => .error e
+    | .ok ri => .ok (assemble r ri.2)
 
 end PymocaVerif.Flatten
